@@ -20,7 +20,9 @@ From Coq Require Import ZArith NArith List Bool Lia.
 From Tinode Require Import Base.Util Pure.Acs Sys.Topic Sys.TopicTac Sys.TopicFrame Sys.TopicNum Sys.TopicNumThm Sys.TopicInst
   Sys.TopicCohC08 Sys.TopicCohC08Proofs Sys.TopicCohC08Step Sys.TopicCohC08Run Sys.TopicCohC08Query Sys.TopicCohC08Wit
   Sys.TopicCohC08Reject Sys.TopicCohC08Ack Sys.TopicCohC08Wit2 Sys.TopicCohC08Keys Sys.TopicCohC08Bisim
-  Sys.PermBranchC08c Sys.PermBranchC08cProofs Sys.PermAckFullC08c Sys.PermBranchC08cWit.
+  Sys.PermBranchC08c Sys.PermBranchC08cProofs Sys.PermAckFullC08c Sys.PermBranchC08cWit
+  Sys.MarksLagC08d Sys.TopicKindsC07 Sys.KindsOfflineC08d Sys.ChanPrivC08d.
+From Tinode Require Sys.TopicDesc.
 Import ListNotations.
 Open Scope Z_scope.
 
@@ -143,7 +145,108 @@ Theorem c08_self_raise_sub_stored : forall x sd want bkg c p0,
     g <> p_given p0 /\
     stored_acs_c08c (st (fst (step dr nr sm NoFault x (OSub sd want bkg)))) (sess_uid sm sd) w g.
 Proof. exact (raise_sub_stored_c08c dr nr sm). Qed.
+(* ---- part d, marks.  WHAT THE KNOWN FINDING note-read-recv-cached-only EXCUSES AND WHAT IT DOES NOT.
+   After a {note read n} above the received mark the cache is not load(store) any more (c08_trigger_note_read_needed):
+   the cached recv is max(stored recv, read).  cache_lag_c08d is that weaker agreement (every stored field but recv,
+   and max(recv, read)).  {get desc} reports read and max(recv, read), so: *)
+(* two caches within the lag answer {get desc} alike, for every session, attached or not *)
+Theorem c08_getdesc_same_modulo_recv_lag : forall f s c d n sid,
+  cache_lag_c08d c d -> c_sess c = c_sess d ->
+  snd (step dr nr sm f (mkState s (Some c) n) (OGetDesc sid)) = snd (step dr nr sm f (mkState s (Some d) n) (OGetDesc sid)).
+Proof. exact (step_getdesc_lag_c08d dr nr sm). Qed.
+(* every {note} request (read / recv / kp, any mark, any fault plan, attached or routed by the hub) keeps the
+   loaded topic within the lag of what the load path would build *)
+Theorem c08_note_keeps_recv_lag : forall f x sid what seq,
+  NoDup (map s_user (subs (st x))) -> sess_uid sm sid <> 0%N ->
+  lag_state_c08d x -> lag_state_c08d (fst (step dr nr sm f x (ONote sid what seq))).
+Proof. exact (step_note_lag_c08d dr nr sm). Qed.
+(* REPORTED MARKS ARE RELOAD-INVARIANT: from a coherent state, after any history of {note} and {get desc}
+   requests - the finding's trigger included - {get desc} is answered the same with and without a reload.
+   The finding excuses the cached recv itself (and the stored recv a later {note recv} writes), never what
+   replyGetDesc reports. *)
+Theorem c08_reported_marks_reload_invisible : forall h x f sid,
+  Forall (marks_op_c08d sm) h -> NoDup (map s_user (subs (st x))) -> coherent x ->
+  snd (step dr nr sm f (fst (run dr nr sm x h)) (OGetDesc sid)) =
+  snd (step dr nr sm f (reload (fst (run dr nr sm x h))) (OGetDesc sid)).
+Proof. exact (run_marks_reload_invisible_c08d dr nr sm). Qed.
 End C08.
+
+(* ------------------------------------------------------------------ *)
+(* part d, p2p topics (kinds model Sys/TopicKindsC07.v): {set sub mode} for one's own subscription through the live
+   topic and through the hub (session not attached / topic not loaded), the topic named usrXXX or p2pXXXYYY *)
+(* the hub path of the kinds model, on its own *)
+Theorem c08_kinds_offline_path : forall w sid uid root orig target mode k,
+  expand uid orig = inl k -> k_attached (tget k (w_topics w)) sid = false ->
+  kstep w (KSetSub sid uid root orig target mode) =
+  let t := tget k (w_topics w) in
+  match off_set_c08d (key_cat k) (kt_rows t) sid uid target mode with
+  | (None, o) => (w, o)
+  | (Some rows', o) => (mkWorld (w_acc w) (tset k (mkKt (kt_exists t) rows' (kt_cache t)) (w_topics w)), o)
+  end.
+Proof. exact kstep_offline_c08d. Qed.
+(* ACK => STORED on the hub path, every topic kind: a {ctrl 200 acs=want/given} goes to the requester, is about
+   the requester, and his live stored row holds exactly that want and that given *)
+Theorem c08_kinds_offline_ack_is_stored : forall cat rows sid uid target mode rows' o s' named wt g,
+  off_set_c08d cat rows sid uid target mode = (rows', o) -> In (s', KAcs 200 named wt g) o ->
+  s' = sid /\ named = 0%N /\
+  exists rows1 r, rows' = Some rows1 /\ alookup uid rows1 = Some r /\ kr_want r = wt /\ kr_given r = g /\ kr_del r = false.
+Proof. exact offline_ack_stored_c08d. Qed.
+(* the FORM of the name (usrXXX / p2pXXXYYY) does not matter: requests naming the same topic do the same *)
+Theorem c08_kinds_name_form_irrelevant : forall w sid uid root o1 o2 target mode,
+  expand uid o1 = expand uid o2 -> (match o1, o2 with OUsr _, _ | ORawP2P _ _, _ => True | _, _ => o1 = o2 end) ->
+  kstep w (KSetSub sid uid root o1 target mode) = kstep w (KSetSub sid uid root o2 target mode).
+Proof. exact name_form_c08d. Qed.
+(* LIVE = OFFLINE: on a p2p topic whose cached record of the requester is his stored row, thisUserSub (live topic)
+   and replyOfflineTopicSetSub (hub) leave the SAME stored rows for every mode string that names a mode: the
+   request is clipped to JRWPA and keeps A whether or not the topic is in memory *)
+Theorem c08_p2p_offline_set_same_as_live : forall rows c sid uid root mode r,
+  mode <> [] ->
+  (forall m0, parse_acs mode = Some m0 -> (m0 =? ModeUnset)%N = false) ->
+  alookup uid rows = Some r -> kr_del r = false -> alookup uid (kc_users c) = Some r ->
+  is_owner (kr_want r) = false -> is_owner (kr_given r) = false ->
+  let '(live_rows, _, _, _) := k_this_user_sub CP2P rows c uid root mode false in
+  live_rows = match fst (off_set_c08d CP2P rows sid uid 0 mode) with Some r' => r' | None => rows end.
+Proof. exact p2p_offline_same_rows_c08d. Qed.
+Print Assumptions c08_kinds_offline_path.
+Print Assumptions c08_kinds_offline_ack_is_stored.
+Print Assumptions c08_kinds_name_form_irrelevant.
+Print Assumptions c08_p2p_offline_set_same_as_live.
+Example c08_ex_mode_names_a_mode :
+  match parse_acs [74; 82; 87; 83; 68]%N with Some m0 => (m0 =? ModeUnset)%N = false | None => True end.
+Proof. exact mode_abs_JRWSD_c08d. Qed.
+
+(* ------------------------------------------------------------------ *)
+(* part d, channel-enabled group topics (Sys/ChanPrivC08d.v): desc.private of full subscribers (rows under grpXXX)
+   and channel readers (rows under chnXXX), the topic named either way *)
+(* ACK => STORED when the name used agrees with the kind of the requester: an acknowledged {set desc private} is in
+   the requester's OWN row and in the cache *)
+Theorem c08_chan_private_ack_is_stored_partial : forall s c u aschan tok ischan cur row,
+  alookup u (cc_users c) = Some (ischan, cur) -> cs_own_c08d s ischan u = Some row -> aschan = ischan ->
+  let '(s', c', fr) := cstep_c08d s c (CSetPriv u aschan tok) in
+  fr = [CCtrl 200] ->
+  cs_own_c08d s' ischan u = Some (fst (TopicDesc.merge_val cur tok)) /\
+  alookup u (cc_users c') = Some (ischan, fst (TopicDesc.merge_val cur tok)).
+Proof. exact chan_set_ack_stored_c08d. Qed.
+(* the full statement (whatever name was used) is refuted by the faithful model: replySetDesc picks the row by the
+   name (asChan), a missing row is a silent success (finding set-private-under-other-name-not-stored) *)
+Definition c08_chan_private_ack_is_stored_statement : Prop := chan_ack_stored_statement_c08d.
+Theorem c08_chan_private_ack_is_stored_refuted : ~ c08_chan_private_ack_is_stored_statement.
+Proof. exact chan_ack_stored_refuted_c08d. Qed.
+(* a channel reader's attach caches the request's private, not the row's (finding chan-reader-private-not-loaded) *)
+Theorem c08_chan_reader_attach_reports_null : forall s c u row,
+  alookup u (cc_users c) = None -> alookup u (cs_chn s) = Some row ->
+  let '(s1, c1, _) := cstep_c08d s c (CAttachReader u 0) in
+  snd (cstep_c08d s1 c1 (CGetDesc u)) = [CDesc 0].
+Proof. exact chan_reader_attach_null_c08d. Qed.
+(* full subscribers under their own name: cached private = stored private is kept by every {set desc private} *)
+Theorem c08_chan_member_coherent_step : forall s c u v tok,
+  member_coh_c08d s c v ->
+  let '(s', c', _) := cstep_c08d s c (CSetPriv u false tok) in member_coh_c08d s' c' v.
+Proof. exact member_set_coh_c08d. Qed.
+Print Assumptions c08_chan_private_ack_is_stored_partial.
+Print Assumptions c08_chan_private_ack_is_stored_refuted.
+Print Assumptions c08_chan_reader_attach_reports_null.
+Print Assumptions c08_chan_member_coherent_step.
 
 (* ------------------------------------------------------------------ *)
 (* the full statements and their refutations *)
@@ -209,6 +312,9 @@ Print Assumptions c08_reject_no_change_partial.
 Print Assumptions c08_acs_ack_is_stored.
 Print Assumptions c08_self_raise_setsub_stored.
 Print Assumptions c08_self_raise_sub_stored.
+Print Assumptions c08_getdesc_same_modulo_recv_lag.
+Print Assumptions c08_note_keeps_recv_lag.
+Print Assumptions c08_reported_marks_reload_invisible.
 Print Assumptions c08_reject_no_change_refuted.
 Print Assumptions c08_reject_banned_needed.
 Print Assumptions c08_reject_fault_publish_needed.
